@@ -1099,6 +1099,8 @@ def check_C01(res):
     res.corr['programs'] = len(classes)
     dis = 0
     fails = {}
+    reenc = []
+    pending = []
     stats = {'cases': len(cases), 'objects': sum(len(c.objs) for c in cases), 'levels': sorted(set(c.level for c in cases)),
              'container_sizes': sorted(set(c.cs for c in cases)), 'files_identical_model_impl': 0, 'reads_identical_model_impl': 0}
     for c, o, a, ma in zip(cases, out, r, mr):
@@ -1141,11 +1143,25 @@ def check_C01(res):
                 if objs[i][0] != exp[i]['class']:
                     kind = 'class-mismatch'; cn0 = exp[i]['class']; break
                 if fc.mask_indet(summary, objs[i][0], objs[i][1]) != fc.mask_indet(summary, exp[i]['class'], exp[i]['dump']):
-                    kind = 'field-mismatch'; cn0 = exp[i]['class']; break
+                    # fields differ: decided below by comparing the encodings (members outside the object's variant,
+                    # e.g. an optional trailing field that is absent, are not part of what the format can express)
+                    pending.append((len(reenc), c, i, exp[i]))
+                    reenc.append('!enc %s %s' % (objs[i][0], objs[i][1]))
         if kind:
             key = (cn0, kind)
             if key not in fails or len(c.objs) < len(fails[key][0].objs):
                 fails[key] = (c, a[:300])
+    if reenc:
+        ra, rc, err = lib.psession(cexe, reenc)
+        if len(ra) == len(reenc):
+            for (k, c, i, e) in pending:
+                dd = parse_kv(ra[k])
+                if dd.get('halt') != 'none' or bytes.fromhex(dd.get('out', '')) != e['bytes']:
+                    key = (e['class'], 'field-mismatch')
+                    if key not in fails or len(c.objs) < len(fails[key][0].objs):
+                        fails[key] = (c, 'object %d read back with a different encoding' % i)
+                else:
+                    stats['equal_by_encoding'] = stats.get('equal_by_encoding', 0) + 1
     res.corr['disagreements'] = dis
     res.oblige('D:file-correspondence', dis == 0, '%d disagreements' % dis)
     res.corr['distinct'] = len(set((c.opts(), c.tail()) for c in cases))
